@@ -79,6 +79,7 @@ def rot_case(draw):
     sign = int(draw(st.sampled_from([1, -1])))
     shadow = draw(st.booleans())
     longway = draw(st.integers(0, 5)) == 0  # encode quaternion with angle -> angle - 2pi (q0 < 0 side)
+    snap = draw(st.booleans())  # round |entries| < 1e-15 of the encoded source to exactly 0 (exact half turns, exact symmetry)
     if k <= 1:
         # gimbal neighbourhood
         psi = draw(gens.fl(-PI, PI))
@@ -93,15 +94,15 @@ def rot_case(draw):
             delta = 10.0 ** draw(gens.fl(-12.0, -3.0))
         else:
             delta = 10.0 ** draw(gens.fl(-3.0, -0.3))
-        return {"kind": "euler", "e": [psi, sg * (PI / 2 - delta), phi], "sign": sign, "shadow": shadow, "long": longway}
+        return {"kind": "euler", "e": [psi, sg * (PI / 2 - delta), phi], "sign": sign, "shadow": shadow, "long": longway, "snap": snap}
     if k == 2:
         ax = draw(st.sampled_from(TIE_AXES))
         n = math.sqrt(sum(a * a for a in ax))
         ax = [a / n for a in ax]
         th = draw(st.sampled_from([PI, 2 * PI / 3, PI - 1e-9, PI / 2, 2 * PI / 3 + 1e-12, 3.0, 1e-3, 0.0]))
-        return {"kind": "aa", "axis": ax, "angle": th, "sign": sign, "shadow": shadow, "long": longway}
+        return {"kind": "aa", "axis": ax, "angle": th, "sign": sign, "shadow": shadow, "long": longway, "snap": snap}
     th, s = draw(gens.angle(strata=("zero", "tiny", "switch", "mid", "mid", "mid", "nearpi", "pi"), max_angle=PI))
-    return {"kind": "aa", "axis": draw(gens.axis()), "angle": th, "sign": sign, "shadow": shadow, "long": longway}
+    return {"kind": "aa", "axis": draw(gens.axis()), "angle": th, "sign": sign, "shadow": shadow, "long": longway, "snap": snap}
 
 
 def case_R(case):
@@ -121,6 +122,13 @@ def case_axis_angle(case):
 
 
 def encode_src(case, rep):
+    X = _encode_src(case, rep)
+    if case.get("snap") and rep in ("quat", "dcm"):
+        X = np.where(np.abs(X) < 1e-15, 0.0, X)
+    return X
+
+
+def _encode_src(case, rep):
     if rep == "euler":
         if case["kind"] == "euler":
             return np.array(case["e"], float)
@@ -169,8 +177,11 @@ def band_class(R):
 
 def classify(case):
     R = case_R(case)
-    return ["shepperd:" + shepperd_branch(R), "gimbal:" + band_class(R), "kind:" + case["kind"],
-            "long" if case.get("long") else "short"]
+    out = ["shepperd:" + shepperd_branch(R), "gimbal:" + band_class(R), "kind:" + case["kind"],
+           "long" if case.get("long") else "short"]
+    if case.get("snap") and case["kind"] == "aa" and case["angle"] == PI:
+        out.append("exact-half-turn")
+    return out
 
 
 def nontrivial(case):
@@ -240,7 +251,7 @@ def make_cells(tier):
         def check(case, src=src, dst=dst, alt=alt):
             want = case_R(case)
             if src == "matrix":
-                X = want
+                X = np.where(np.abs(want) < 1e-15, 0.0, want) if case.get("snap") else want
             else:
                 X = encode_src(case, src)
                 if src == "mrp":
@@ -269,7 +280,7 @@ def make_cells(tier):
         check_valid(out, "mrp", "shadow_if_necessary", r=r.tolist())
         L.close(ref.mrp_to_R(out), ref.mrp_to_R(r), "shadow_if_necessary changes the rotation", atol=1e-9, rtol=0,
                 r=r.tolist(), out=out.tolist())
-        if float(r @ r) <= 1 and not np.array_equal(out, r):
+        if float(r @ r) <= 1 - 1e-12 and not np.array_equal(out, r):  # margin: the code and numpy may round |r|^2 = 1 differently
             raise Violation("shadow_if_necessary altered an MRP that is already inside the unit ball", r=r.tolist(), out=out.tolist())
 
     cells.append(Cell("shadow_if_necessary", mrp_any(), check_shadow, nontrivial,
@@ -280,7 +291,7 @@ def make_cells(tier):
 
 def build(tier):
     cells = make_cells(tier)
-    req = {"conv/*": ["shepperd:tr>0", "shepperd:R00", "shepperd:R11", "shepperd:R22", "gimbal:pole", "gimbal:inband",
+    req = {"conv/*": ["exact-half-turn", "shepperd:tr>0", "shepperd:R00", "shepperd:R11", "shepperd:R22", "gimbal:pole", "gimbal:inband",
                       "gimbal:outband"]}
     return {
         "cells": cells,
